@@ -91,6 +91,29 @@ def pair_oracle(ctx, ncurves):
                         if fp.get("preprocessing") == b_[0] and not untouched:
                             ctx.violation("rejected-request-reported", "a rejected request is reported as the "
                                           "curve's preprocessing", {"history": hist})
+                    # the property literally: the columns after an accepted request are those of a FRESH curve given
+                    # the same request (not only those of the pipeline the curve says it stored)
+                    if outs[2] == "ok" and j < nreg:
+                        ref = histlib.fresh(cid)
+                        with warnings.catch_warnings():
+                            warnings.simplefilter("ignore")
+                            try:
+                                ref.apply_preprocessing(copy.deepcopy(b_[0]), copy.deepcopy(b_[1]))
+                                ref_ok = True
+                            except BaseException:  # noqa
+                                ref_ok = False
+                        if not ref_ok:
+                            ctx.violation("accepted-after-history-rejected-fresh", "the request is accepted after the "
+                                          "first one but rejected on a fresh curve", {"history": hist, "curve": cid})
+                        else:
+                            diffc = [c for c in sorted(set(w.idnt.columns) | set(ref.columns))
+                                     if c not in ("fit", "fit residuals", "fit range") and
+                                     ((c in w.idnt) != (c in ref) or
+                                      (c in ref and histlib.digest(w.idnt[c]) != histlib.digest(ref[c])))]
+                            if diffc:
+                                ctx.violation("columns-differ-from-fresh-request", f"columns {diffc} after the request "
+                                              "differ from those of a fresh curve given the same request",
+                                              {"history": hist, "curve": cid})
                     if not w.raw_unchanged():
                         ctx.violation("raw-data-modified", "raw data modified", {"history": hist})
                     for sig, what in w.fresh_oracle():
